@@ -17,12 +17,19 @@ def concrete_aeon(n, T, names=None):
         lines.append(f'${names[i]}: ' + dnf(names, ones, n))
     return '\n'.join(lines) + '\n'
 
+class StateSet(set):
+    """set of states; `depends` is set when the native result depends on auxiliary (or other) symbolic variables"""
+    depends = None
+    def __eq__(self, o): return set.__eq__(self, o) and not self.depends and not getattr(o, 'depends', None)
+    def __ne__(self, o): return not self.__eq__(o)
+    __hash__ = None
+
 def states_of(dec, bdd_str):
-    r = dec.bdd(bdd_str); out = set()
+    r = dec.bdd(bdd_str); out = StateSet()
     for s in range(1 << dec.n):
         v = z3.simplify(dec.at_state(r, s))
         if z3.is_true(v): out.add(s)
-        elif not z3.is_false(v): raise RuntimeError('result of a fully specified network depends on something else: ' + str(v))
+        elif not z3.is_false(v): out.add(s); out.depends = str(v)
     return out
 
 def concrete_spec(n, T, sets, phi, names=None, self_loops=True):
